@@ -262,6 +262,28 @@ def c15_cases(workdir, quick=True):
                         "run": 1, "seq": 950, "t": 0})
         finally:
             s.close()
+    # a cancel that arrives after the run was released for idleness: the decorator base class hands cancel() to the INNER
+    # adapter, which no longer exists for a released run (ServerStack.tla: CancelDirect is not enabled, nothing reloads)
+    prog = sc.waiter(None)
+    db = os.path.join(str(workdir), "c15_cancel_released.db")
+    s = sv.ServerSystem(prog, db_path=db, idle_timeout=10.0, backoff=(0.5, 3.0))
+    try:
+        s.launch()
+        s.start_handler("h1")
+        s.run_to_end(15000)                    # idle at 0, released at 10 s
+        released = not s.active("h1")
+        t = s.cancel("h1")
+        s.run_to_end(40000)
+        ack = t.result() if t.done() and t.exception() is None else None
+        writes = [{"status": r["status"], "ok": bool(r["ok"])} for r in s.trace if r["e"] == "status_write"]
+        row = s.handler_row("h1")
+        out.append({"e": "case", "label": "cancel_after_idle_release", "expect": "cancelled", "faults": 0, "store": "sqlite",
+                    "status": row["status"], "has_result": row["has_result"], "result": row["result"],
+                    "has_error": row["error"] != "", "run_ended": s.live_loops("h1") == 0 and ack == "cancelled", "writes": writes,
+                    "cancel_of_released_run": bool(released and ack == "cancelled"),
+                    "run": 1, "seq": 960, "t": 0})
+    finally:
+        s.close()
     # a later run in the SAME server process: earlier transient failures must not have used up its retry budget
     db = os.path.join(str(workdir), "c15_second.db")
     s = sv.ServerSystem(sc.pipeline(timeout=50), db_path=db, idle_timeout=1000.0, status_faults=2, backoff=(0.5, 3.0))
